@@ -519,7 +519,10 @@ class _GenerateRenderMethod:
         if has_loop:
             self.printer.writeline("loop = __M_loop = runtime.LoopStack()")
 
-        for ident in to_write:
+        # context and namespace lookups first: a closure written below may
+        # use them as argument defaults, which are evaluated where it is
+        # defined (the set's own order varies with the hash seed)
+        for ident in sorted(to_write, key=lambda ident: ident in comp_idents):
             if ident in comp_idents:
                 comp = comp_idents[ident]
                 if comp.is_block:
